@@ -279,15 +279,15 @@ pub fn generate(run_seed: u64, _tier: Tier) -> Scenario {
 
 // ---------------------------------------------------------------------------------------------
 
-struct Sub {
-    when: When,
-    buf: Arc<Mutex<Vec<u8>>>,
-    attached: Arc<AtomicBool>,
-    status: Arc<AtomicU16>,
-    handle: tokio::task::JoinHandle<()>,
+pub struct Sub {
+    pub when: When,
+    pub buf: Arc<Mutex<Vec<u8>>>,
+    pub attached: Arc<AtomicBool>,
+    pub status: Arc<AtomicU16>,
+    pub handle: tokio::task::JoinHandle<()>,
 }
 
-fn spawn_sub(engine: &Engine, uri: &str, when: When) -> Sub {
+pub fn spawn_sub(engine: &Engine, uri: &str, when: When) -> Sub {
     let buf = Arc::new(Mutex::new(Vec::new()));
     let attached = Arc::new(AtomicBool::new(false));
     let status = Arc::new(AtomicU16::new(0));
@@ -314,7 +314,7 @@ fn spawn_sub(engine: &Engine, uri: &str, when: When) -> Sub {
     Sub { when, buf, attached, status, handle }
 }
 
-fn parse_sse_frames(bytes: &[u8]) -> Vec<Value> {
+pub fn parse_sse_frames(bytes: &[u8]) -> Vec<Value> {
     let text = String::from_utf8_lossy(bytes);
     let mut out = Vec::new();
     for block in text.split("\n\n") {
@@ -579,7 +579,7 @@ fn run_scenario(sc: &Scenario, engine: &Engine, tid: &str, stats: &mut RunStats)
     expected.sort();
     stats.bump("frames_in_watched_streams", expected.len() as u64);
     let want = expected.len();
-    drive(engine, Duration::from_millis(1500), || subs.iter().all(|s| parse_sse_frames(&s.buf.lock().unwrap()).len() >= want));
+    drive(engine, Duration::from_secs(8), || subs.iter().all(|s| parse_sse_frames(&s.buf.lock().unwrap()).len() >= want));
     stats.nontrivial = expected.len() >= 3;
     let mut verdict = None;
     for (i, s) in subs.iter().enumerate() {
